@@ -111,7 +111,12 @@ def _project(root, names, secs):
 def _snapshot(roots):
     out = []
     for root in roots:
+        # directories count too (a dry run must not even create the destination root): existence and mtime
+        out.append((root, "dir", os.lstat(root).st_mtime_ns) if os.path.isdir(root) else (root, "missing", 0))
         for dp, dn, fn in os.walk(root):
+            for dname in dn:
+                dpth = os.path.join(dp, dname)
+                out.append((dpth, "dir", os.lstat(dpth).st_mtime_ns, b""))
             for f in sorted(fn):
                 p = os.path.join(dp, f)
                 st = os.lstat(p)
@@ -149,6 +154,8 @@ def run_case(case):
     _write_tree(_W["src"], names, case["src"], secs, links=case.get("links", ()))
     _write_tree(_W["dst"], names, case["dst"], secs)
     _extra_dirs(_W["dst"], case.get("dst_dirs", []))
+    if case.get("dst_missing"):
+        shutil.rmtree(_W["dst"])            # the destination root does not exist yet
     env = _env(case.get("env"))
     dry = case["dry"]
     before = _snapshot([_W["src"], _W["dst"]]) if dry else None
@@ -301,6 +308,9 @@ def random_cases(n, seed, dirs=("local", "push", "pull")):
         case["pats"] = [p for p in case["pats"] if "\udcff" not in p]
         if case["dir"] == "push":
             case["dst"] = [[] if "\udcff" in n else m for n, m in zip(names, dst)]
+        if rng.random() < 0.08:
+            case["dst"] = [[] for _ in names]
+            case["dst_missing"] = True
         if case["dir"] != "local" and any("\udcff" in n and m for n, m in zip(names, src)):
             # a remote command cannot name it: the run has to report that file as failed (and deliver nothing under another name)
             case["induced"] = "unsendable"
